@@ -192,6 +192,9 @@ int main(void) {
         memset(b, 0xff, 6); memcpy(b + 6, M, 6); b[12] = 0x88; b[13] = 0xd9; b[14] = 1; b[15] = 0; b[16] = 0; b[17] = 0;
         memset(b + 18, 0xff, 6); memcpy(b + 24, M, 6); b[30] = 0; b[31] = 7; b[32] = 0; b[33] = 9; b[34] = 0; b[35] = 0;
         cap_n = 0; cap_len = 0;
+        /* errno holds whatever some earlier, unrelated call left there - often a "transient" code; it means nothing unless the
+         * call at hand has just failed */
+        { static const int stale[] = {0, EINTR, EAGAIN, ENOBUFS, ENOMEM, EINVAL, EWOULDBLOCK}; errno = stale[rec % 7]; }
         parseFrame(b, &nif);
         printf("REC %ld mac=%02x%02x%02x%02x%02x%02x mtu=%zu iftype=%u speed=%u chflags=%u rc=%d%d%d%d sends=%d HELLO ",
                rec, gm.a[0], gm.a[1], gm.a[2], gm.a[3], gm.a[4], gm.a[5], gmtu, gtype, gspeed, gfl, rc1, rc2, rc3, rc4, cap_n);
@@ -208,6 +211,7 @@ int main(void) {
             memcpy(b + 18, nif.macAddress, 6); memcpy(b + 24, M, 6); b[30] = 0; b[31] = 9; b[32] = 0; b[33] = 3; n = 34;
             for (int k = 0; k < 3; k++) { b[n++] = (uint8_t)(k & 1); b[n++] = (uint8_t)pauses[k]; memcpy(b + n, S, 6); n += 6; memcpy(b + n, M, 6); n += 6; }
             cap_n = 0;
+            errno = (rec % 3 == 1) ? EINTR : (rec % 3 == 2) ? ENOBUFS : 0;
             long long t0 = vclock_ns;
             if (nif.MTU >= 80) parseFrame(b, &nif);
             printf("EMIT %ld phase_us=%lld pauses=%u,%u,%u sends=%d at_us=", rec, phase_us, pauses[0], pauses[1], pauses[2], cap_n);
